@@ -107,16 +107,8 @@ Section Comparators.
   Definition sort_output (ks : list (bytes * sflag)) (inp : list record) (gs : list bytes) : list record :=
     flat_map (fun g => group_of (sort_keyf ks) g inp) gs ++ spill ks inp.
 
-  Definition check_sort (ks : list (bytes * sflag)) (inp out : list record) : bool :=
-    let keyf := sort_keyf ks in
-    let gs := dkeys keyf out in
-    records_eqb out (sort_output ks inp gs)
-    && (List.length gs =? List.length (dkeys keyf inp))%nat
-    && forallb (fun g => mem g gs) (dkeys keyf inp)
-    && ordered_by (fun g h => less (map snd ks) (head_vals ks inp g) (head_vals ks inp h)) gs.
-
-  (* the documentation's extra claim ("the sort is stable"): groups whose heads compare equal stay in
-     first-appearance order.  Checked separately from the property. *)
+  (* "The sort is stable" (reference-verbs; sort.SliceStable over the group heads, which are in first-appearance
+     order): groups whose heads compare equal under the whole flag chain stay in first-appearance order. *)
   Fixpoint index_of (g : bytes) (l : list bytes) : nat :=
     match l with [] => O | x :: t => if beqb g x then O else S (index_of g t) end.
   Fixpoint stable_by (eqv : bytes -> bytes -> bool) (pos : bytes -> nat) (l : list bytes) : bool :=
@@ -128,6 +120,15 @@ Section Comparators.
     let keyf := sort_keyf ks in
     stable_by (fun g h => chain_cmp (map snd ks) (head_vals ks inp g) (head_vals ks inp h) =? 0)
               (fun g => index_of g (dkeys keyf inp)) (dkeys keyf out).
+
+  Definition check_sort (ks : list (bytes * sflag)) (inp out : list record) : bool :=
+    let keyf := sort_keyf ks in
+    let gs := dkeys keyf out in
+    records_eqb out (sort_output ks inp gs)
+    && (List.length gs =? List.length (dkeys keyf inp))%nat
+    && forallb (fun g => mem g gs) (dkeys keyf inp)
+    && ordered_by (fun g h => less (map snd ks) (head_vals ks inp g) (head_vals ks inp h)) gs
+    && check_stable ks inp out.
 
   (* DSL sort(array, flags | function): elements are single-field records (name, value); equal-comparing elements may
      come out in any order, so there is no grouping: permutation + no later element strictly less than an earlier one *)
